@@ -20,8 +20,13 @@ extern int mpt_parse_option(const MPT_STRUCT(parser_format) *fmt, MPT_STRUCT(par
 {
 	int curr;
 	
-	/* get next visible character, no save */
-	if ((curr = mpt_parse_nextvis(&parse->src, fmt->com, sizeof(fmt->com))) < 0) {
+	/* name started by caller, following characters are name data */
+	int named = parse->valid && !fmt->ostart;
+	
+	/* get next (visible) character, no save unless name is continued */
+	if ((curr = named
+	     ? mpt_parse_getchar(&parse->src, path)
+	     : mpt_parse_nextvis(&parse->src, fmt->com, sizeof(fmt->com))) < 0) {
 		parse->curr = parse->valid ? (MPT_PARSEFLAG(Option) | MPT_PARSEFLAG(Name)) : MPT_PARSEFLAG(Option);
 		if (curr != -2) {
 			return MPT_ERROR(BadArgument);
@@ -32,7 +37,7 @@ extern int mpt_parse_option(const MPT_STRUCT(parser_format) *fmt, MPT_STRUCT(par
 		parse->curr = MPT_PARSEFLAG(Option) | MPT_PARSEFLAG(Name);
 		return MPT_ERROR(BadValue);
 	}
-	if (mpt_path_addchar(path, curr) < 0) {
+	if (!named && mpt_path_addchar(path, curr) < 0) {
 		parse->curr = MPT_PARSEFLAG(Option) | MPT_PARSEFLAG(Name);
 		return MPT_ERROR(MissingBuffer);
 	}
